@@ -10,7 +10,8 @@ import hgxv
 RULE = ("undirected: (thorough) every set of 1..4 distinct hyperedges (sizes 1-5) over a 5-node universe, all 5 nodes "
         "added (uncovered ones are isolated), hyperedge order shuffled, labels drawn per case from sparse ints / shifted "
         "ints / strings; (both tiers) random hypergraphs with 3-9 nodes, 1-10 hyperedges of size 1-5 with nested and "
-        "overlapping hyperedges injected and isolated nodes. directed: (thorough) every set of 1..3 hyperedges with "
+        "overlapping hyperedges injected and isolated nodes, 30% of them built through a history with a removed temporary "
+        "hyperedge and a removal + re-insertion; quick replaces the exhaustive scopes by random slices of them. directed: (thorough) every set of 1..3 hyperedges with "
         "disjoint non-empty sides over 4 nodes; (both tiers) random ones with sides of size 1-3, some with overlapping "
         "sides, plus a stream with an empty side (correspondence of the ZeroDivisionError only). Every case runs "
         "bipartite, clique (keep_isolated False/True), line graph and directed line graph for intersection s in {1,2,3} "
@@ -150,8 +151,8 @@ def oracle_bipartite(viol, nodes, E, res):
     g, tab = res[1]
     V = list(g.nodes())
     if sorted(map(repr, V)) != sorted(map(repr, tab)) or len(V) != len(nodes) + len(E):
-        return viol(f"bipartite: {len(V)} vertices, id table has {len(tab)} entries, expected one per node and one per "
-                    f"hyperedge = {len(nodes) + len(E)}")
+        return viol(f"bipartite: vertices {sorted(map(str, V))}, id table keys {sorted(map(str, tab))}: the table must "
+                    f"have exactly the vertices as keys, one per node and one per hyperedge ({len(nodes) + len(E)})")
     vals = list(tab.values())
     nv = [v for v in V if not isinstance(tab[v], tuple)]
     ev = [v for v in V if isinstance(tab[v], tuple)]
@@ -250,7 +251,19 @@ def check_undirected(ctx, drv, case):
     edges_in = [tuple(e) for e in case["edges"]]
     h = Hypergraph()
     h.add_nodes(nodes_in)
-    h.add_edges(edges_in)
+    det = case.get("detour")
+    if det:
+        # same final content through a history with a removed temporary hyperedge and a removal + re-insertion
+        # (edge ids get gaps, the re-inserted hyperedge moves to the end of every listing)
+        h.add_edge(tuple(det["temp"]))
+        h.add_edges(edges_in)
+        h.remove_edge(tuple(det["temp"]))
+        e = edges_in[det["readd"]]
+        h.remove_edge(e)
+        h.add_edge(e)
+        ctx.count("built_through_detour")
+    else:
+        h.add_edges(edges_in)
     nodes = list(h.get_nodes())
     E = [tuple(sorted(e)) for e in h.get_edges()]
     rank = {x: i for i, x in enumerate(sorted(set(nodes)))}
@@ -338,7 +351,20 @@ def check_directed(ctx, drv, case):
     h = DirectedHypergraph()
     for x in nodes_in:
         h.add_node(x)
-    h.add_edges(edges_in)
+    det = case.get("detour")
+    if det and edges_in:
+        # same final content through a history with a removed temporary hyperedge and a removal + re-insertion
+        # (internal edge ids get gaps, the re-inserted hyperedge moves to the end of every listing)
+        temp = (tuple(det["temp"][0]), tuple(det["temp"][1]))
+        h.add_edge(temp)
+        h.add_edges(edges_in)
+        h.remove_edge(temp)
+        e = edges_in[det["readd"] % len(edges_in)]
+        h.remove_edge(e)
+        h.add_edge(e)
+        ctx.count("directed_built_through_detour")
+    else:
+        h.add_edges(edges_in)
     E = [(tuple(sorted(e[0])), tuple(sorted(e[1]))) for e in h.get_edges()]
     nodes = list(h.get_nodes())
     rank = {x: i for i, x in enumerate(sorted(set(nodes)))}
@@ -443,6 +469,11 @@ def check_case(ctx, drv, case):
             check_undirected(ctx, drv, case)
     except Timeout:
         ctx.violation(case, "the projection routines did not return within 20 s on this input")
+    except RuntimeError:
+        raise                      # the Lean driver died: tool failure
+    except Exception as e:  # noqa: BLE001
+        # the unchanged tree never gets here (seeds 0-4, thorough); outputs of an unexpected shape do
+        ctx.violation(case, f"the outputs could not be examined as graphs / id tables / hyperedge lists: {e!r}"[:300])
     finally:
         signal.alarm(0)
         signal.signal(signal.SIGALRM, old)
@@ -490,7 +521,13 @@ def gen_undirected(rng):
     iso = [x for x in labels if x not in covered and rng.random() < 0.7]
     nodes = [x for x in labels if x in covered and rng.random() < 0.5] + iso
     rng.shuffle(nodes)
-    return {"kind": "u", "nodes": nodes, "edges": out}
+    case = {"kind": "u", "nodes": nodes, "edges": out}
+    if out and rng.random() < 0.3:
+        have = {frozenset(e) for e in out}
+        temp = tuple(rng.sample(labels, min(n, rng.randint(1, 4))))
+        if frozenset(temp) not in have:
+            case["detour"] = {"temp": list(temp), "readd": rng.randrange(len(out))}
+    return case
 
 
 def gen_directed(rng, empty_side=False):
@@ -525,7 +562,15 @@ def gen_directed(rng, empty_side=False):
             seen.add(k)
             out.append(e)
     iso = [x for x in labels if rng.random() < 0.2]
-    return {"kind": "d", "nodes": iso, "edges": out}
+    case = {"kind": "d", "nodes": iso, "edges": out}
+    if out and rng.random() < 0.3:
+        # a temporary hyperedge that is not part of the final content (its nodes stay, as isolated nodes or not)
+        for _ in range(5):
+            a, b = rng.sample(labels, 2)
+            if (frozenset([a]), frozenset([b])) not in seen:
+                case["detour"] = {"temp": [[a], [b]], "readd": rng.randrange(len(out))}
+                break
+    return case
 
 
 def relabel(rng, k):
@@ -582,11 +627,11 @@ def run(ctx):
                  {"kind": "d", "nodes": [4], "edges": [((2,), (1,))]}]:
         check_case(ctx, drv, case)
     # random larger inputs
-    for _ in range(ctx.scale(160, 1500)):
+    for _ in range(ctx.scale(400, 1500)):
         if low(ctx):
             break
         check_case(ctx, drv, gen_undirected(rng))
-    for i in range(ctx.scale(120, 1200)):
+    for i in range(ctx.scale(280, 1200)):
         if low(ctx):
             break
         check_case(ctx, drv, gen_directed(rng, empty_side=(i % 8 == 7)))
@@ -596,9 +641,9 @@ def run(ctx):
         it_d = small_directed()
     else:
         all_u = list(small_undirected(rng, 5, 3))
-        it_u = rng.sample(all_u, 120)
+        it_u = rng.sample(all_u, 350)
         all_d = list(small_directed(4, 2))
-        it_d = rng.sample(all_d, 80)
+        it_d = rng.sample(all_d, 200)
     done_u = done_d = 0
     for combo in it_d:
         if low(ctx, 120 if thorough else 5):
